@@ -177,12 +177,24 @@ def meta_events(spec):
                             tm = emb.new_module(cls)
                             mm.project = emb
                             emb.metamodule = mm
-                            mm.mappings.values[0].module = tm.index
-                            mm.mappings.values[0].controller = i - 1
-                            mm.user_defined_controllers = 1
-                            mm.update_user_defined_controllers()
-                            mm.user_defined[0].label = "cut"
-                            old = readback(mm, attr)
+                            rattr = attr
+                            if how == "meta-alias":      # an unlabelled user-defined controller in front of the labelled one; read back
+                                amp = emb.new_module(api.m.Amplifier)        # under the controller's own name, not through the alias
+                                mm.mappings.values[0].module = amp.index
+                                mm.mappings.values[0].controller = 0
+                                mm.mappings.values[1].module = tm.index
+                                mm.mappings.values[1].controller = i - 1
+                                mm.user_defined_controllers = 2
+                                mm.update_user_defined_controllers()
+                                mm.user_defined[1].label = "cut"
+                                rattr = "user_defined_2"
+                            else:
+                                mm.mappings.values[0].module = tm.index
+                                mm.mappings.values[0].controller = i - 1
+                                mm.user_defined_controllers = 1
+                                mm.update_user_defined_controllers()
+                                mm.user_defined[0].label = "cut"
+                            old = readback(mm, rattr)
                         except Exception:
                             events.append({"op": "set", "t": t, "i": i, "u": 0, "strict": strict, "how": how, "arg": {"k": "int", "v": v, "n": ""},
                                            "old": 0, "outcome": "exception", "has": False, "got": 0})
@@ -191,7 +203,7 @@ def meta_events(spec):
                             out, _ = outcome_of(lambda: setattr(mm, attr, v))
                         events.append({"op": "set", "t": t, "i": i, "u": 0, "strict": strict, "how": how, "arg": {"k": "int", "v": v, "n": ""},
                                        "old": old, "outcome": "exception" if out.startswith("exception:") else out, "has": True,
-                                       "got": readback(mm, attr)})
+                                       "got": readback(mm, rattr)})
     return events
 
 
@@ -626,3 +638,47 @@ def enumerate_tables(spec, complete, seed, procs=16):
         res2 = pool.map(_enumerate_meta, jobs, chunksize=1)
         res3 = pool.map(_enumerate_file, jobs, chunksize=1)
     return [e for r in res + res2 + res3 for e in r]
+
+
+def _first_use_child():
+    """(child process) The FIRST object of every module type built in this interpreter carries controller keywords; the
+    plain object built after it must still report the declared defaults.  Prints the `fresh` events as JSON."""
+    import json
+    import sys
+    from .common import setup_repo_path
+    setup_repo_path()
+    spec = json.load(sys.stdin)
+    cl = classes()
+    events = []
+    for t, st in sorted(spec.items()):
+        cls = cl.get(t)
+        if cls is None:
+            continue
+        names = list(cls.controllers)
+        kw = {}
+        for i, c in enumerate(st["ctls"], 1):
+            if c["kind"] == "range" and i - 1 < len(names) and not (t == "SpectraVoice" and names[i - 1].startswith("h")) \
+                    and not (t == "Smooth" and names[i - 1] == "scale"):
+                kw[names[i - 1]] = c["max"] if c["default"] != c["max"] else c["min"]
+        try:
+            cls(**kw)
+            fresh = cls()
+        except Exception:
+            fresh = None
+        for i, c in enumerate(st["ctls"], 1):
+            name = names[i - 1] if i - 1 < len(names) else "?"
+            events.append({"op": "fresh", "t": t, "i": i, "name": name, "got": readback(fresh, name) if fresh is not None else -777777})
+    json.dump(events, sys.stdout)
+
+
+def first_use_events(spec):
+    """`fresh` events observed in a NEW interpreter whose first construction of each type carried keyword values."""
+    import json
+    import subprocess
+    import sys
+    r = subprocess.run([sys.executable, "-c", "from rvverif.ctl import _first_use_child; _first_use_child()"],
+                       input=json.dumps(spec), capture_output=True, text=True, timeout=600)
+    if r.returncode != 0:
+        from .common import MachineryError
+        raise MachineryError("first-use child failed: " + r.stderr[-800:])
+    return json.loads(r.stdout)
